@@ -25,7 +25,10 @@ def check(ctx):
     params = dict(ReadSizes=[5000], ByteBudgets=[], BlockBudgets=[1, 2], Offers=[4000], Targets=[5000], Scripts=[[]],
                   SReadSizes=[5000], MaxSteps=2 if q else 3, ResetMode="any",
                   _expect_ops=["Reset", "Decode", "Collect", "FromTo"])
-    fdlib.run_config(ctx, "MC_FD_histories", "dict", params, cuts="boundaries" if not q else "sparse",
+    # cut points: the sparse menu in both tiers.  Reset is enabled in every state for every (frame, cut) pair, so the graph has
+    # states x frames x cuts edges: with every block boundary as a cut the thorough tier reached 40 million edges (3.6 GB of
+    # graph, > 20 GB of programs) once the frame set had grown to 30 frames; depth (MaxSteps 3) is what the thorough tier adds.
+    fdlib.run_config(ctx, "MC_FD_histories", "dict", params, cuts="sparse",
                      what="all histories up to MaxSteps calls per frame; a new frame may start in every state; truncated sources end frames in failures")
     # the property as a differential statement, free of model predictions: every part of a program that starts with a Reset on
     # a used decoder is run again on a fresh decoder; returns and accessors must agree call by call
